@@ -8,11 +8,19 @@ contract("iface::ext.sys.modules.get", params=["name", "default"], defaults={"de
                "their branches are outside the documented rich types of the statement)", modifies=[],
          ensures=[("absent-in-this-sandbox", "result is None")])
 
+specfun("is_documented_rich", ["o"], "isinst(o, 'Path') or isinst(o, 'date') or isinst(o, 'time') or isinst(o, 'set') or isinst(o, 'complex')")
 contract(J + "json_default", props=["C10"], types={"o": "Any"}, returns="Any",
          modifies=["#CALLS", "#NTOP"],
-         ensures=[("documented-encoding-in-branch-order",
-                   "implies(isinst(o, 'Path'), last(CALLS).tag == 'ret' and LASTF == o and is_str(result)) and "
-                   "implies(not isinst(o, 'Path') and (isinst(o, 'date') or isinst(o, 'time')), last(CALLS).tag == 'isoformat' and last(CALLS).a == o and result == last(CALLS).d)", ["C10"])],
-         raises=[{"cls": "TypeError", "when": "not (isinst(o, 'Path') or isinst(o, 'date') or isinst(o, 'time') or isinst(o, 'set') or isinst(o, 'complex'))",
-                  "ensures": []},
-                 {"cls": "BaseException", "ensures": []}])
+         ensures=[("a-path-becomes-text", "implies(isinst(o, 'Path'), is_str(result))", ["C10"]),
+                  ("dates-and-times-become-what-isoformat-returns",
+                   "implies(not isinst(o, 'Path') and (isinst(o, 'date') or isinst(o, 'time')), last(CALLS).tag == 'ret' and box(result) == last(CALLS).d and len(CALLS) == len(old(CALLS)) + 1)", ["C10"]),
+                  ("a-set-becomes-a-list-of-exactly-its-elements",
+                   "implies(not isinst(o, 'Path') and not isinst(o, 'date') and not isinst(o, 'time') and isinst(o, 'set'), "
+                   "is_list(box(result)) and len(seq(box(result))) == card(dict_of(o)) and forall(lambda v: contains(seq(box(result)), v) == contains(dict_of(o), v), 'val') and CALLS == old(CALLS))", ["C10"]),
+                  ("a-complex-number-becomes-its-two-parts",
+                   "implies(not isinst(o, 'Path') and not isinst(o, 'date') and not isinst(o, 'time') and not isinst(o, 'set') and isinst(o, 'complex'), "
+                   "dict_of(box(result)) == {'real': ref_field(o, 'real'), 'imag': ref_field(o, 'imag')} and CALLS == old(CALLS))", ["C10"])],
+         raises=[{"cls": "TypeError", "iff": True, "exact": True, "when": "not is_documented_rich(o)",
+                  "ensures": [("nothing-called", "CALLS == old(CALLS)")]},
+                 {"cls": "BaseException", "when": "isinst(o, 'Path') or isinst(o, 'date') or isinst(o, 'time')",
+                  "ensures": []}])
